@@ -454,7 +454,12 @@ def main(argv=None):
     classify = getattr(mod, "classify", None)
     fresh = []
     known_hits = Counter()
+    seen_w = set()
     for w in m["violations"]:
+        dg = digest([w.get("key"), w.get("case"), w.get("stratum")])
+        if dg in seen_w:
+            continue
+        seen_w.add(dg)
         key = w.get("key") or (classify(w) if classify else None)
         if key and key in known:
             known_hits[key] += 1
